@@ -827,6 +827,25 @@ func (c *Ctx) libPrecond(f *ssa.Function, b *ssa.BasicBlock, x *ssa.Call, env *e
 		need, exact = 64, true
 	case "crypto/ed25519.NewKeyFromSeed":
 		need, exact = 32, true
+	case "math/big.Int.FillBytes":
+		// panics when the absolute value does not fit the buffer: 8*len(buf) >= x.BitLen(), with BitLen() of the
+		// same value tested on the way here
+		key := siteKey(f, "P7", x) + " value fits buffer"
+		recv, buf := x.Call.Args[0], x.Call.Args[1]
+		var bitLen ssa.Value
+		allInstrs(f, func(bb *ssa.BasicBlock, in ssa.Instruction) {
+			if cl, ok := in.(*ssa.Call); ok && callQName(&cl.Call) == "math/big.Int.BitLen" && cl.Call.Args[0] == recv && bb.Dominates(b) {
+				bitLen = cl
+			}
+		})
+		g := siteGoal{desc: "8*len(buf) >= x.BitLen()", build: func(p *proverCtx) []*linexp {
+			if bitLen == nil {
+				return []*linexp{linConst(-1)}
+			}
+			return []*linexp{p.varFor(lvar{v: buf, kind: 'l'}).scale(8).sub(p.lin(bitLen))}
+		}}
+		c.siteObl("E1.P7-libpre", key, x.Pos(), f, b, g, env, "the value's bit length is bounded by the buffer size on the way to the call", "(*big.Int).FillBytes panics when the value does not fit the buffer; no test of BitLen() of the same value against the buffer size reaches this call")
+		return
 	case "strings.Repeat", "bytes.Repeat":
 		key := siteKey(f, "P7", x) + " count>=0"
 		g := siteGoal{desc: "Repeat count >= 0", build: func(p *proverCtx) []*linexp { return []*linexp{p.lin(x.Call.Args[1])} }}
